@@ -19,7 +19,7 @@ NamesFirst ==
     AnsE, UnitDef("za"), DimDef("za"), StructDef, PrintS("za"), AssertEq("za", 1), ParseErr }
 NamesSecond ==
   { LetDiv0("zb"), LetTyErr("zb"), PrintS("za"), Expr("za"), UnitDef("zb"), AssertEq("za", 2), ParseErr,
-    Let("zb", 2), Call("za") }
+    Let("zb", 2), Call("za"), ExprDiv0 }
 ImportsFirst ==
   { Use("ma"), Use("mb"), Use("mc"), Use("me"), Use("mf"), Use("mg"), Use("mz"), Expr("ma_x"),
     LetRef("za", "mb_x"), Let("ma_x", 3), LetDiv0("za"), Let("za", 1) }
@@ -29,7 +29,7 @@ SmallFirst ==
   { Let("za", 1), LetRef("zb", "za"), Fn("za", 2), FnCall("zb", "za"), Expr("za"), Call("zb"), AnsE,
     UnitDef("zb"), PrintS("za"), LetDiv0("za"), LetTyErr("zb"), Use("mb"), Use("mf"), Use("mz"), QExpr, AnsVal,
     UnitDer("zc"), UnitUse("zc") }
-SmallSecond == { LetDiv0("zb"), Expr("za"), ParseErr, Use("ma"), UnitUse("zc") }
+SmallSecond == { LetDiv0("zb"), Expr("za"), ParseErr, Use("ma"), UnitUse("zc"), ExprDiv0 }
 
 OkFirst ==
   { Let("za", 1), Let("za", 2), LetRef("za", "za"), LetRef("zc", "za"), Fn("zb", 1), Fn("zb", 2), FnRef("zb", "za"),
